@@ -76,6 +76,10 @@ def dump(v):
         return ("PList", tuple(dump(x) for x in v))
     if t is tuple:
         return ("PTuple", tuple(dump(x) for x in v))
+    if t is set:
+        return ("PSet", tuple(dump(x) for x in v))           # in this object's iteration order
+    if t is dict:
+        return ("PDict", tuple(dump(x) for kv in v.items() for x in kv))
     if t is Opaque:
         return ("POpaque", v.n)
     return ("OTHER", t.__name__, repr(v)[:80])
@@ -90,7 +94,7 @@ def is_pure_model(d):
 def count_nodes(d):
     if d[0] in ("VSeq",):
         return 1 + sum(count_nodes(x) for x in d[2])
-    if d[0] in ("PList", "PTuple"):
+    if d[0] in ("PList", "PTuple", "PSet", "PDict"):
         return 1 + sum(count_nodes(x) for x in d[1])
     return 1
 
@@ -182,8 +186,8 @@ def e_value(d, out):
         out.extend(["pB", "1" if d[1] else "0"])
     elif k == "PNone":
         out.append("pN")
-    elif k in ("PList", "PTuple"):
-        out.append("pl" if k == "PList" else "pt")
+    elif k in ("PList", "PTuple", "PSet", "PDict"):
+        out.append({"PList": "pl", "PTuple": "pt", "PSet": "pS", "PDict": "pD"}[k])
         out.append(str(len(d[1])))
         for x in d[1]:
             e_value(x, out)
@@ -264,9 +268,9 @@ class _Dec:
             return ("PBool", self.bool_())
         if t == "pN":
             return ("PNone",)
-        if t in ("pl", "pt"):
+        if t in ("pl", "pt", "pS", "pD"):
             n = self.int_()
-            return ("PList" if t == "pl" else "PTuple", tuple(self.value() for _ in range(n)))
+            return ({"pl": "PList", "pt": "PTuple", "pS": "PSet", "pD": "PDict"}[t], tuple(self.value() for _ in range(n)))
         if t == "po":
             return ("POpaque", self.bin_())
         raise ValueError("bad tag from the model driver: %r" % t)
@@ -632,6 +636,6 @@ def collect_symbols(d, acc):
     elif d[0] == "VSeq":
         for x in d[2]:
             collect_symbols(x, acc)
-    elif d[0] in ("PList", "PTuple"):
+    elif d[0] in ("PList", "PTuple", "PSet", "PDict"):
         for x in d[1]:
             collect_symbols(x, acc)
